@@ -12,6 +12,7 @@ mod c13;
 mod c14;
 mod c15;
 mod c16;
+mod c17;
 mod c18;
 mod c20;
 mod c34;
@@ -41,6 +42,7 @@ fn main() {
         "c14" => c14::run(quick, seed, &work),
         "c15" => c15::run(quick, seed),
         "c16" => c16::run(quick, seed),
+        "c17" => c17::run(quick, seed, &work),
         "c18" => c18::run(quick, seed, &work),
         "c20" => c20::run(quick, seed, &work),
         "c34" => c34::run(quick, seed, &work),
